@@ -2,13 +2,13 @@ package main
 
 import (
 	"fmt"
-	"os"
-	"time"
 	"go/token"
 	"go/types"
+	"os"
 	"sort"
 	"strings"
 	"sync"
+	"time"
 
 	"golang.org/x/tools/go/callgraph"
 	"golang.org/x/tools/go/ssa"
@@ -23,7 +23,7 @@ import (
 // alias a caller-visible object).
 
 type Loc struct {
-	Root int    // >=0: index into fn.Params ++ fn.FreeVars ; -1: global (Path starts with "g:<name>")
+	Root int // >=0: index into fn.Params ++ fn.FreeVars ; -1: global (Path starts with "g:<name>")
 	Path string
 }
 
@@ -42,10 +42,10 @@ type writeInfo struct {
 type Hazard struct{ W, R Loc }
 
 type Summary struct {
-	Reads  map[Loc]bool
-	Writes map[Loc]writeInfo
-	Haz    map[Hazard]token.Pos // position of the offending read
-	Unknown []string            // callees that could not be summarised (reported, not ignored)
+	Reads   map[Loc]bool
+	Writes  map[Loc]writeInfo
+	Haz     map[Hazard]token.Pos // position of the offending read
+	Unknown []string             // callees that could not be summarised (reported, not ignored)
 }
 
 func newSummary() *Summary {
@@ -552,14 +552,16 @@ func (r *fnResolver) addrLocs(addr ssa.Value) []Loc {
 // ---------- summaries ----------
 
 type Effects struct {
-	p     *Program
-	mu    sync.Mutex
-	sums  map[*ssa.Function]*Summary
-	state map[*ssa.Function]int // 0 new, 1 in progress, 2 done
-	sites map[ssa.CallInstruction][]*ssa.Function
-	sitesOnce sync.Once
-	Trusted map[string]bool
+	p              *Program
+	mu             sync.Mutex
+	sums           map[*ssa.Function]*Summary
+	state          map[*ssa.Function]int // 0 new, 1 in progress, 2 done
+	sites          map[ssa.CallInstruction][]*ssa.Function
+	sitesOnce      sync.Once
+	Trusted        map[string]bool
 	UnknownCallees map[string]int
+	must           map[*ssa.Function]*MustSummary
+	mustState      map[*ssa.Function]int
 }
 
 func NewEffects(p *Program) *Effects {
@@ -726,6 +728,7 @@ var bigExtraOut = map[string]bool{"DivMod": true, "QuoRem": true, "GCD": true, "
 // stdWrites: std functions writing through a parameter (index counts the receiver as 0 when
 // there is one).
 var stdWrites = map[string][]int{
+	"crypto/subtle.ConstantTimeCopy": {1}, "crypto/subtle.XORBytes": {0},
 	"io.ReadFull": {1}, "io.ReadAtLeast": {1}, "crypto/rand.Read": {0}, "math/rand.Read": {0},
 	"encoding/binary.Read": {2}, "encoding/binary.PutUint64": {1}, "encoding/binary.PutUint32": {1}, "encoding/binary.PutUint16": {1},
 	"encoding/hex.Decode": {0}, "encoding/hex.Encode": {0}, "sort.Slice": {0}, "sort.Sort": {0}, "sort.Ints": {0}, "slices.Sort": {0}, "slices.SortFunc": {0}, "slices.Reverse": {0},
